@@ -69,3 +69,62 @@ def explain(r):
         "impl": r["impl"][i],
         "model": r["model"][i],
     }
+
+
+def waiting_unchanged(r, what="a job that was not invoked by exec_jobs changed (due time / counters)"):
+    """Spec clause shared by the checks of the sequential threading runner: an exec_jobs call leaves every
+    job it did not invoke exactly as it was (due instant, awareness, attempts, failed attempts) - a due job
+    that is passed over because of max_exec keeps its occurrence and its lateness for the next call."""
+    fails = []
+    for i, (o, ob) in enumerate(zip(r["scn"]["ops"], r["obs"])):
+        if "truncated" in ob:
+            break
+        if o["op"] != "exec" or i == 0 or ob["res"][0] != "c" or "jobs" not in r["obs"][i - 1]:
+            continue
+        inv = {x[0] for x in ob["invoked"]}
+        prev = r["obs"][i - 1]["jobs"]
+        for k, v in ob["jobs"].items():
+            if k in inv or k not in prev:
+                continue
+            if tuple(prev[k][:4]) != tuple(v[:4]):
+                fails.append({"info": {"what": what, "op": i, "key": k, "before": list(prev[k]), "after": list(v)}})
+                break
+    return fails
+
+
+def stop_retirement_specs(r, tms_tokens):
+    """Spec clause shared by C07 / C09 / C11: an exec_jobs call may retire a job *because of its stop* only when the job's
+    next occurrence - computed from the listed times by the Lean Spec (`unionNext`), not taken from what the implementation
+    reports - lies past the stop.  `tms_tokens(op)` renders the timing list of a scheduling op."""
+    qs = []
+    scn = r["scn"]
+    jobs = {}
+    for i, o in enumerate(scn["ops"]):
+        if i >= len(r["obs"]) or "truncated" in r["obs"][i]:
+            break
+        ob = r["obs"][i]
+        if o["op"] == "sch" and ob["res"][0] == "j":
+            ref = (o["start"][0] - (o["start"][1] or 0)) if o.get("start") else o["clock"]
+            jobs[ob["res"][1]] = (o, ref)
+        if o["op"] != "exec" or ob["res"][0] != "c":
+            continue
+        for (k, due_seen, _p) in ob["invoked"]:
+            if k not in jobs or k not in ob["jobs"] or not jobs[k][0].get("stop"):
+                continue
+            o2, ref = jobs[k]
+            _due, _aw, att, _f, has, _reg = ob["jobs"][k]
+            if has == 1 or (o2.get("max_att") and att >= o2["max_att"]) or o2["call"] == 5:
+                continue                      # still alive, or retired by its attempt budget
+            stop = o2["stop"][0] - (o2["stop"][1] or 0)
+            if o2.get("skip"):
+                last = max(o["clock"], ref)   # the new due time is at most the first occurrence after max(t, start)
+            elif not o2.get("delay", True) and att == 1:
+                last = ref                    # the run consumed `start` itself
+            else:
+                last = due_seen
+            info = {"what": "retired_by_stop_only_when_next_occurrence_is_past_stop", "key": k, "op": i, "last": last, "stop": stop}
+            if o2["call"] == 0:
+                qs.append((f"spec lt {stop} {last + o2['timings'][0][1]}", info))
+            else:
+                qs.append((f"spec nextpast {tms_tokens(o2)} {last} {stop}", info))
+    return qs
